@@ -24,6 +24,8 @@ pub fn gen_case(t: &mut Tape) -> Case {
     let any_async = t.chance(1, 2);
     // level i is async iff i < first_sync (callers of an async fn must be async)
     let first_sync = if any_async { t.range(1, depth) } else { 0 };
+    // an optimisation hint on the trait methods / entraited fns (it must not change what the delegation costs)
+    let hint = *t.pick(&["", "", "", "#[cold] ", "#[inline] ", "#[inline(never)] ", "#[inline(always)] "]);
     let end = t.choose(4); // 0 plain entraited fn, 1 leaf trait (static Impl<T> delegation), 2 impl block (static), 3 `no_deps` fn
     let end_async = any_async && first_sync == depth && t.flip();
     let mut src = String::from("#![allow(warnings)]\nuse crate::rt;\npub struct App;\n");
@@ -63,17 +65,17 @@ pub fn gen_case(t: &mut Tape) -> Case {
             src.push_str(&format!("#[::entrait::entrait(pub F{i}{})]\npub mod m{i} {{\n    use super::*;\n    pub {q}fn f{i}{g}({deps_form}, x: u64{extra_param}) -> u64 {body}\n    pub fn unused{i}(_deps: &impl Sized) {{}}\n}}\n", if a && chain_no_send { ", ?Send" } else { "" }));
         } else {
             let opt = if a && chain_no_send { ", ?Send" } else if t.chance(1, 5) { ", export = false" } else if t.chance(1, 6) { ", mock_api = TheMock, unimock = false" } else { "" };
-            src.push_str(&format!("#[::entrait::entrait(pub F{i}{opt})]\n{q}fn f{i}{g}({deps_form}, x: u64{extra_param}) -> u64 {body}\n"));
+            src.push_str(&format!("#[::entrait::entrait(pub F{i}{opt})]\n{hint}{q}fn f{i}{g}({deps_form}, x: u64{extra_param}) -> u64 {body}\n"));
         }
     }
     let eq = if end_async { "async " } else { "" };
     let ey = if end_async { "rt::yield_once().await; " } else { "" };
     match end {
         1 => src.push_str(&format!(
-            "#[::entrait::entrait]\npub trait Leaf {{ {eq}fn leaf(&self, x: u64) -> u64; }}\nimpl Leaf for App {{ {eq}fn leaf(&self, x: u64) -> u64 {{ let v = vec![x]; {ey}v[0] * 2 }} }}\n"
+            "#[::entrait::entrait]\npub trait Leaf {{ {hint}{eq}fn leaf(&self, x: u64) -> u64; }}\nimpl Leaf for App {{ {eq}fn leaf(&self, x: u64) -> u64 {{ let v = vec![x]; {ey}v[0] * 2 }} }}\n"
         )),
         2 => src.push_str(&format!(
-            "#[::entrait::entrait(RepoImpl, delegate_by = DelegateRepo)]\npub trait Repo {{ {eq}fn get(&self, x: u64) -> u64; }}\npub struct MyRepo;\n#[::entrait::entrait]\nimpl RepoImpl for MyRepo {{ pub {eq}fn get(_deps: &impl Sized, x: u64) -> u64 {{ let v = vec![x]; {ey}v[0] * 2 }} }}\nimpl DelegateRepo<Self> for App {{ type Target = MyRepo; }}\n"
+            "#[::entrait::entrait(RepoImpl, delegate_by = DelegateRepo)]\npub trait Repo {{ {hint}{eq}fn get(&self, x: u64) -> u64; }}\npub struct MyRepo;\n#[::entrait::entrait]\nimpl RepoImpl for MyRepo {{ pub {eq}fn get(_deps: &impl Sized, x: u64) -> u64 {{ let v = vec![x]; {ey}v[0] * 2 }} }}\nimpl DelegateRepo<Self> for App {{ type Target = MyRepo; }}\n"
         )),
         3 => {
             let in_mod = t.chance(1, 3);
@@ -141,7 +143,7 @@ pub fn gen_case(t: &mut Tape) -> Case {
     if byval > 0 {
         let (opt, sup) = if byval == 1 { ("?Send", "") } else if byval == 2 { ("", ": Send") } else { ("", "") };
         src.push_str(&format!(
-            "#[::entrait::entrait({opt})]\npub trait ByVal{sup} {{ async fn consume(self, x: u64) -> u64; fn consume_sync(self, x: u64) -> u64; }}\n#[derive(Clone, Copy)] pub struct Bv;\n\
+            "#[::entrait::entrait({opt})]\npub trait ByVal{sup} {{ {hint}async fn consume(self, x: u64) -> u64; {hint}fn consume_sync(self, x: u64) -> u64; }}\n#[derive(Clone, Copy)] pub struct Bv;\n\
              impl ByVal for Bv {{ async fn consume(self, x: u64) -> u64 {{ let v = vec![x, x]; rt::yield_once().await; v[1] + 1 }} fn consume_sync(self, x: u64) -> u64 {{ let v = vec![x]; v[0] + 2 }} }}\n"
         ));
     }
@@ -190,6 +192,14 @@ pub fn gen_case(t: &mut Tape) -> Case {
         }
     ));
     let mut classes = vec![["end:plain_fn", "end:leaf_trait", "end:impl_block", "end:no_deps_fn"][end]];
+    if !hint.is_empty() {
+        classes.push(match hint.trim() {
+            "#[cold]" => "hint:cold",
+            "#[inline]" => "hint:inline",
+            "#[inline(never)]" => "hint:inline_never",
+            _ => "hint:inline_always",
+        });
+    }
     if any_async {
         classes.push("async");
     }
